@@ -42,7 +42,8 @@ print(best)
 E
 )
   fi
-  tools/confirm_seed.sh "seeded/$name" "$pkg" 'Seed|Demo|Test' > "/tmp/proc-$name.confirm.log" 2>&1; crc=$?
+  rx=$(grep -o '^func Test[A-Za-z0-9_]*' "$S/demo_test.go" | sed 's/^func //' | sort -u | tr '\n' '|' | sed 's/|$//'); rx="^(${rx:-TestDemo})\$"
+  tools/confirm_seed.sh "seeded/$name" "$pkg" "$rx" > "/tmp/proc-$name.confirm.log" 2>&1; crc=$?
   tools/mutrun.sh "$ID" "seeded/$name/patch.diff" quick > "/tmp/proc-$name.check.log" 2>&1; mrc=$?
   keys=$(grep -ao 'VIOLATION property=[A-Z0-9]* replay=[^ ]* key=[^ ]*' "/tmp/proc-$name.check.log" | sed 's/.*key=//' | sort -u | head -8 | tr '\n' ',')
   echo "PROCESSED $name pkg=$pkg confirm=$crc check=$mrc keys=$keys"
